@@ -276,6 +276,68 @@ func childOnlyAsBlob(r *vh.Run, i int) {
 	}
 }
 
+// childContentDeleted: the mirror image of childOnlyAsBlob.  A child manifest was pushed and acknowledged, then its
+// content was removed through the blob API (the entry in the repository index stays until a collection drops it).  It
+// answers 404 by digest - it does not exist - so an index (or, for a config / layer, an image) that references it is
+// incomplete and has to be refused, and the refusal changes nothing.
+func childContentDeleted(r *vh.Run, i int) {
+	kind := []vh.StoreKind{vh.Mem, vh.Dir, vh.MemDir}[i%3]
+	root := ""
+	if kind != vh.Mem {
+		root = r.TempDir("c04d")
+		defer vh.RemoveAll(root)
+	}
+	srv := vh.New(vh.Conf(kind, root, vh.Neutral))
+	defer srv.Close()
+	wit := map[string]any{"trial": i, "store": kind.String()}
+	cfg := []byte(fmt.Sprintf("deleted child config %d", i))
+	vh.Do(srv, vh.Req{Method: "POST", URL: "/v2/k/blobs/uploads/?digest=" + vh.DigestOf("sha256", cfg), Body: cfg})
+	mt, xt := vh.MTImage, vh.MTIndex
+	if i%2 == 1 {
+		mt, xt = vh.MTDockerImage, vh.MTDockerList
+	}
+	m := []byte(fmt.Sprintf(`{"schemaVersion":2,"mediaType":%q,"config":{"mediaType":%q,"digest":%q,"size":%d},"layers":[]}`, mt, vh.MTConfig, vh.DigestOf("sha256", cfg), len(cfg)))
+	md := vh.DigestOf("sha256", m)
+	ref := md
+	if i%4 >= 2 {
+		ref = "child" // a tagged child: the tag stays listed, its content is gone all the same
+	}
+	if st := vh.Do(srv, vh.Req{Method: "PUT", URL: "/v2/k/manifests/" + ref, H: map[string]string{"Content-Type": mt}, Body: m}).Status; st != 201 {
+		r.Inconclusive(fmt.Sprintf("childContentDeleted: child push answered %d", st))
+		return
+	}
+	if st := vh.Do(srv, vh.Req{Method: "DELETE", URL: "/v2/k/blobs/" + md}).Status; st != 202 {
+		r.Inconclusive(fmt.Sprintf("childContentDeleted: blob delete answered %d", st))
+		return
+	}
+	if st := vh.Do(srv, vh.Req{Method: "GET", URL: "/v2/k/manifests/" + md, H: map[string]string{"Accept": vh.AcceptAll}}).Status; st != 404 {
+		r.Count("child_content_deleted_still_served", 1)
+		return
+	}
+	tagsBefore := string(vh.Do(srv, vh.Req{Method: "GET", URL: "/v2/k/tags/list"}).Body)
+	x := []byte(fmt.Sprintf(`{"schemaVersion":2,"mediaType":%q,"manifests":[{"mediaType":%q,"digest":%q,"size":%d}]}`, xt, mt, md, len(m)))
+	xd := vh.DigestOf("sha256", x)
+	xref := "bundle"
+	if i%8 >= 4 {
+		xref = xd
+	}
+	rs := vh.Do(srv, vh.Req{Method: "PUT", URL: "/v2/k/manifests/" + xref, H: map[string]string{"Content-Type": xt}, Body: x})
+	r.Count("child_content_deleted_trials", 1)
+	wit["status"] = rs.Status
+	if rs.Status < 400 || rs.Status >= 500 {
+		r.Violation("invalid-accepted:child-content-deleted", fmt.Sprintf("%s store: an index whose child manifest %s was pushed and then removed through the blob API (GET by digest: 404) was answered %d", kind, vh.Short(md), rs.Status), wit)
+		return
+	}
+	if tagsAfter := string(vh.Do(srv, vh.Req{Method: "GET", URL: "/v2/k/tags/list"}).Body); tagsAfter != tagsBefore {
+		r.Violation("refused-but-changed:child-content-deleted", fmt.Sprintf("%s store: the refused index changed the tag listing from %s to %s", kind, tagsBefore, tagsAfter), wit)
+	}
+	for _, u := range []string{"/v2/k/manifests/" + xd, "/v2/k/blobs/" + xd} {
+		if st := vh.Do(srv, vh.Req{Method: "GET", URL: u, H: map[string]string{"Accept": vh.AcceptAll}}).Status; st != 404 {
+			r.Violation("refused-but-changed:child-content-deleted", fmt.Sprintf("%s store: GET %s answers %d after the refusal", kind, u, st), wit)
+		}
+	}
+}
+
 func runHistory(r *vh.Run, i int) {
 	rng := r.Rand(i)
 	kind := []vh.StoreKind{vh.Mem, vh.Dir}[i%2]
@@ -472,8 +534,10 @@ func main() {
 	r := vh.Start()
 	n := r.N(200, 8000)
 	vh.Parallel(n, 16, func(i int) { runHistory(r, i) })
-	nk := r.N(8, 80)
+	nk := r.N(12, 120)
 	vh.Parallel(nk, 8, func(i int) { childOnlyAsBlob(r, i) })
+	vh.Parallel(nk, 8, func(i int) { childContentDeleted(r, i) })
+	r.Require("child_content_deleted_trials", int64(nk/2))
 	r.Require("child_only_as_blob_trials", int64(nk*3/4))
 	r.Require("histories", int64(n))
 	r.Require("accepted", 300)
